@@ -1083,4 +1083,6 @@ func propC26(c *Check) {
 	ruleR26_5(c)
 	ruleR11_5(c)
 	ruleR29_1(c)
+	ruleR06_6(c) // one vlog.write call serves the requests of several streams across a rotation: each pointer names its own file
+	ruleR11_2(c) // after re-open the oracle starts above every streamed version, wherever the incremental load put it
 }
